@@ -47,6 +47,11 @@ static size_t build(uint8_t* buf) {
       if (sk < 3) buf[o++] = '"';
       for (size_t i = 0; i + 2 < fill; i++) buf[o++] = "ab[{]},:"[i & 7];
       buf[o++] = '\\'; buf[o++] = '"';
+    } else if (kind == 4) { // as kind 2, followed by 20 more plain bytes inside the same string (a full vector block follows the escape)
+      if (sk < 3) buf[o++] = '"';
+      for (size_t i = 0; i + 2 < fill; i++) buf[o++] = "ab[{]},:"[i & 7];
+      buf[o++] = '\\'; buf[o++] = '"';
+      for (size_t i = 0; i < 20; i++) buf[o++] = 'q';
     } else {                // kind 3: two whitespace runs: 3 spaces, a colon-free token boundary, then fill spaces (cached-bitmap path of skip_space_safe)
       buf[o++] = ' '; buf[o++] = ' '; buf[o++] = ' ';
       if (sk == 2) { /* {"a":   <fill spaces> */ } 
